@@ -2,6 +2,7 @@ package main
 
 import (
 	"fmt"
+	"strings"
 	"go/constant"
 	"go/token"
 	"go/types"
@@ -30,6 +31,7 @@ type Frame struct {
 	retDone    bool
 	runningDefers bool
 	onRet      func(v Value) // engine continuation (models that call back into code)
+	visits     map[*ssa.BasicBlock]int
 }
 
 func (ex *Exec) initGlobals() {
@@ -145,6 +147,16 @@ func (ex *Exec) jump(fr *Frame, to *ssa.BasicBlock) {
 	fr.prev = fr.block
 	fr.block = to
 	fr.ip = 0
+	// livelock detection: a loop of the code under test that keeps spinning
+	if to.Index <= fr.prev.Index && ex.merging == 0 {
+		if fr.visits == nil {
+			fr.visits = map[*ssa.BasicBlock]int{}
+		}
+		fr.visits[to]++
+		if fr.visits[to] > 100000 && ex.ownPkg(pkgOf(fr.fn)) && !strings.HasPrefix(fr.fn.Name(), "H_") && !strings.HasPrefix(fr.fn.Name(), "verif") {
+			ex.end(OutDeadlock, "livelock: loop in "+fr.fn.String()+" does not terminate (more than 100000 iterations in one call)")
+		}
+	}
 }
 
 // step executes one instruction of g's top frame.
